@@ -380,6 +380,69 @@ def run_test_cmd(ctx, nscen):
     return len(distinct)
 
 
+def run_linked_documents(ctx):
+    """--data / --rules directories whose entries are symbolic links (to a compliant, a non-compliant, a malformed document; a link next to
+    regular files; a linked sub-DIRECTORY is not walked by the tool - which documents a directory argument collects is not what the
+    statement is about, so that layout is not compared): the outcome is encoded exactly as for the same directory with the links
+    replaced by copies of their targets - in plain, --structured json and junit"""
+    rules = 'rule sized {\n  size <= 10\n}\n'
+    targets = {'ok.json': '{"size": 1}', 'bad.json': '{"size": 50}', 'broken.json': '{"size": ', 'other.yaml': 'size: 11\n'}
+    layouts = {
+        'link-to-noncompliant': {'a_ok.json': ('copy', 'ok.json'), 'z_link.json': ('link', 'bad.json')},
+        'link-to-compliant': {'a_bad.json': ('copy', 'bad.json'), 'link.json': ('link', 'ok.json')},
+        'only-a-link-noncompliant': {'link.json': ('link', 'bad.json')},
+        'only-a-link-compliant': {'link.json': ('link', 'ok.json')},
+        'link-to-malformed': {'a_ok.json': ('copy', 'ok.json'), 'link.json': ('link', 'broken.json')},
+        'link-yaml': {'a_ok.json': ('copy', 'ok.json'), 'link.yaml': ('link', 'other.yaml')},
+    }
+    jobs, meta = [], []
+    for lab, entries in layouts.items():
+        for variant in ('links', 'copies'):
+            d = os.path.join(ctx.wd, 'lnk_%s_%s' % (lab, variant))
+            files = {'r.guard': rules}
+            for nm, body in targets.items():
+                files['outside/' + nm] = body
+            e2e.write_files(d, files)
+            os.makedirs(os.path.join(d, 'data'), exist_ok=True)
+            for nm, (kind, tgt) in entries.items():
+                p_ = os.path.join(d, 'data', nm)
+                if os.path.lexists(p_):
+                    if os.path.isdir(p_) and not os.path.islink(p_):
+                        import shutil; shutil.rmtree(p_)
+                    else:
+                        os.remove(p_)
+                if kind == 'copy' or (kind == 'link' and variant == 'copies'):
+                    open(p_, 'w').write(targets[tgt])
+                elif kind == 'link':
+                    os.symlink(os.path.join('..', 'outside', tgt), p_)
+                elif kind == 'linkdir':
+                    src = os.path.join(d, 'outside_dir')
+                    os.makedirs(src, exist_ok=True)
+                    for x in tgt:
+                        open(os.path.join(src, x), 'w').write(targets[x])
+                    if variant == 'links':
+                        os.symlink(os.path.join('..', 'outside_dir'), p_)
+                    else:
+                        os.makedirs(p_, exist_ok=True)
+                        for x in tgt:
+                            open(os.path.join(p_, x), 'w').write(targets[x])
+            for mlab, flags in (('plain', []), ('s-json', ['--structured', '-o', 'json', '-S', 'none']), ('s-junit', ['--structured', '-o', 'junit', '-S', 'none'])):
+                jobs.append({'args': ['validate', '-r', 'r.guard', '-d', 'data'] + flags, 'cwd': d}); meta.append((lab, variant, mlab))
+    res = dict(zip(meta, e2e.run_many(jobs)))
+    n = 0
+    for lab in layouts:
+        for mlab in ('plain', 's-json', 's-junit'):
+            n += 1
+            (c1, so1, se1), (c2, so2, se2) = res[(lab, 'links', mlab)], res[(lab, 'copies', mlab)]
+            if c1 != c2:
+                ctx.failing('validate -d <dir> (%s, %s): exit %s when the documents are symbolic links, %s when they are copies of the same files' % (lab, mlab, c1, c2),
+                            {'class': 'layout-links', 'layout': lab, 'mode': mlab, 'stdout_links': so1[:400].decode('utf-8', 'replace'), 'stderr_links': se1[-300:].decode('utf-8', 'replace'),
+                             'stdout_copies': so2[:400].decode('utf-8', 'replace')}, found=True)
+    ctx.coverage['linked_document_layouts'] = n
+    ctx.coverage['evaluations'] += len(jobs)
+    return n
+
+
 def run(ctx):
     ctx.build(cli=True)
     ok, problems = tables.regenerate()
@@ -389,7 +452,9 @@ def run(ctx):
     pr = ctx.proofs('C06')
     thorough = ctx.tier == 'thorough'
     n1 = run_validate(ctx, 260 if thorough else 50, thorough)
-    n2 = run_test_cmd(ctx, 200 if thorough else 40)
+    n2 = run_test_cmd(ctx, 200 if thorough else 40) + run_linked_documents(ctx)
+    from .c16 import run_default_rule
+    n2 += run_default_rule(ctx)     # file-level clauses: the default rule's expectation decides the exit code in every rendering
     ctx.coverage['distinct_nontrivial'] = n1 + n2
     ctx.coverage['rule'] = ('scenario = 1..3 rules files (passing, failing, skipping, guarded, syntactically broken, empty, raising an evaluation '
                             'error, and generated programs) x 1..3 documents (compliant, non-compliant, unrelated, malformed) run by the real binary in '
